@@ -24,16 +24,13 @@ func newLongestSeq(str1, str2 string) *longestSeq {
 		str2: []byte(str2),
 	}
 
-	// optimization: process common prefix and common suffix without recursion algorithm
+	// optimization: process the common suffix without the recursion algorithm (the walk back
+	// from the ends takes equal last bytes anyway). A common prefix cannot be set aside: redis
+	// pairs a byte with the LAST possible partner, "ab"/"aab" match as [0,1]-[1,2], not as
+	// [1,1]-[2,2] plus [0,0]-[0,0].
 	start := 0
 	ex := len(ls.str1)
 	ey := len(ls.str2)
-	for start < ex && start < ey {
-		if ls.str1[start] != ls.str2[start] {
-			break
-		}
-		start++
-	}
 
 	for ex > start && ey > start {
 		if ls.str1[ex-1] != ls.str2[ey-1] {
